@@ -51,8 +51,30 @@ def frame_obligations(rep):
                               q, not ws, {'writes': [w.as_dict() for w in ws]})
     # (iii) class-level / module-level mutable state
     st = effects.module_level_state()
-    cls_state = [m for m in st if m['class'] and (m['class'], m['name']) not in CLASS_STATE_OK]
-    common.structural(rep, 'C20/package/no class-level containers or instances (shared by all calls and threads)',
+    # a class-level object is shared by all calls and threads.  It is a problem when it is MUTABLE STATE: a container that
+    # some function writes (store, mutating call, through any base), or an instance of a class of the package itself / a
+    # mutable builtin created by a call (a token, a filter, a list(...)), which can be handed out and modified in place.
+    # Constant tables (tuples, and list/dict/set literals that no function writes) and immutable helpers (compiled
+    # patterns, locks, frozensets) are not state.
+    all_writes = [w for q, node in fns.items() for w in effects.writes_of(q, node)]
+
+    def written(name):
+        return [w.as_dict() for w in all_writes
+                if w.attr == name or w.base == name or ('.' + name) in (w.text or '').split('=')[0]]
+    pkg_classes = {q.rsplit('.', 1)[1] for q in source().names() if isinstance(source().get(q), ast.ClassDef)}
+    cls_state = []
+    for m in st:
+        if not m['class'] or (m['class'], m['name']) in CLASS_STATE_OK:
+            continue
+        if m['kind'] == 'container':
+            ws = written(m['name'])
+            if ws:
+                cls_state.append(dict(m, written_by=ws[:3]))
+        else:
+            callee = m['kind'].split(':', 1)[1].rsplit('.', 1)[-1]
+            if callee in pkg_classes or callee in ('list', 'dict', 'set', 'bytearray', 'deque', 'defaultdict', 'OrderedDict'):
+                cls_state.append(m)
+    common.structural(rep, 'C20/package/no class-level mutable state (written containers, instances of package classes)',
                       'sqlparse', not cls_state, {'found': cls_state})
     mod_names = {m['name'] for m in st if not m['class'] and m['kind'] == 'container'}
     writers = []
